@@ -409,8 +409,13 @@ def run_case(case, world):
         if stop:
             break
         if world.locks_held():
-            violate('LOCK_LEAK', 'lock-held-after:%s' % op.get('kind'), 'lock held after operation %d (%r)' % (
-                idx, src[:120]), ['kind:' + op.get('kind', '?')])
+            if kind == 'parse_fault':
+                # an asynchronous exception in the one-line window between lock.acquire() and the following
+                # try: cannot be closed by any Python code; the statement does not cover it - counted, not judged
+                world.probe('lock-leaked-by-async-crash')
+            else:
+                violate('LOCK_LEAK', 'lock-held-after:%s' % op.get('kind'), 'lock held after operation %d (%r)' % (
+                    idx, src[:120]), ['kind:' + op.get('kind', '?')])
             for lk in world.locks:
                 lk.owner = None
                 lk.owner_task = None
